@@ -343,7 +343,12 @@ func Drain() {
 	<-ch
 }
 
+// othersActive is set by blockedStates: goroutines that are neither parked nor blocked on a channel/lock, not
+// counting the caller - worker goroutines of a library, a pending system call, a sleeping timer goroutine.
+var othersActive int
+
 func blockedStates() map[int64]bool {
+	othersActive = -1 // the caller itself is "running"
 	buf := make([]byte, 1<<16)
 	for {
 		n := runtime.Stack(buf, true)
@@ -376,6 +381,11 @@ func blockedStates() map[int64]bool {
 			}
 		}
 		out[id] = blocked
+		for _, p := range []string{"running", "runnable", "syscall", "sleep", "IO wait"} {
+			if bytes.HasPrefix(st, []byte(p)) {
+				othersActive++
+			}
+		}
 	}
 	return out
 }
@@ -408,7 +418,8 @@ func schedLoop() {
 				}
 				if others && time.Since(lastRunCheck) > 50*time.Millisecond {
 					lastRunCheck = time.Now()
-					if blockedStates()[h.gid] {
+					if blockedStates()[h.gid] && othersActive <= 0 {
+						// blocked, and nothing else in the process is at work that could be what it waits for
 						runBlocked++
 						if runBlocked >= 20 {
 							giveUpLocked("the running task is blocked on an operation that was not bracketed")
@@ -474,6 +485,9 @@ func schedLoop() {
 			// of a library) is going to wake one of them. Give it a moment of real time, then let go of the run.
 			if idleSince.IsZero() {
 				idleSince = time.Now()
+			}
+			if blockedStates(); othersActive > 0 {
+				idleSince = time.Now() // a library goroutine, a system call or a timer is still at work
 			}
 			if time.Since(idleSince) > 2*time.Second && parkedWaiting == 0 {
 				giveUpLocked(fmt.Sprintf("all %d live tasks blocked inside operations and nothing woke them for 2s", inop))
